@@ -46,6 +46,26 @@ func (e *Emitter) Script(o *Obligation) string {
 		sd := e.ss.Decls()
 		b.WriteString(e.ss.StrDecls())
 		b.WriteString(sd)
+		// spec functions the lemma's element term refers to (not the fold itself, which the lemma script declares)
+		used := symbolsOf(o.Raw)
+		need := map[string]bool{}
+		for i := len(e.reg.order) - 1; i >= 0; i-- {
+			f := e.reg.order[i]
+			if strings.Contains(o.Raw, "(declare-fun "+f.SMT+" ") {
+				continue
+			}
+			if used[f.SMT] || need[f.SMT] {
+				need[f.SMT] = true
+				for s := range symbolsOf(f.Decl) {
+					used[s] = true
+				}
+			}
+		}
+		for _, f := range e.reg.order {
+			if need[f.SMT] {
+				b.WriteString(f.Decl)
+			}
+		}
 		b.WriteString(o.Raw)
 		b.WriteString("(check-sat)\n")
 		return b.String()
